@@ -30,12 +30,29 @@ def run(ctx):
                         "evidence is taken from a forward-sampled row, hence has positive probability"]
     insts = make_instances(ctx)
     hseeds = list(range(4)) if ctx.thorough else [0, 1]
-    pl = [(hs, {"insts": ch, "seed": ctx.seed * 100 + hs * 8 + j, "tid0": (hs * 8 + j) * 1000, "n": 600 if ctx.thorough else 300})
+    # (the per-instance seed does not depend on the hash seed: the workers of different hash seeds make the SAME calls)
+    pl = [(hs, {"insts": ch, "seed": ctx.seed * 100 + j, "tid0": (hs * 8 + j) * 1000, "n": 600 if ctx.thorough else 300})
           for hs in hseeds for j, ch in enumerate(chunks(insts, 16 // len(hseeds)))]
     traces = []
     for res in run_workers(ctx, "c07", "record", pl):
         traces += res["traces"]
+    cross_compare(traces)
     validate(ctx, traces)
+
+
+def cross_compare(traces):
+    """append the xrepro events: frames of the same (instance, call) obtained under different hash seeds"""
+    by = {}
+    for t in traces:
+        by.setdefault((t["inst"]["id"], t["seed"]), []).append(t)
+    for group in by.values():
+        if len(group) < 2:
+            continue
+        ref = group[0].get("digests", {})
+        for t in group[1:]:
+            d = t.get("digests", {})
+            for m in sorted(set(ref) & set(d)):
+                t["events"].append({"ev": "xrepro", "method": m, "same": ref[m] == d[m], "other_hashseed": group[0]["hashseed"]})
 
 
 def validate(ctx, traces):
@@ -56,10 +73,14 @@ def validate(ctx, traces):
             continue
         e = t["events"][v["l"] - 1]
         api = {"kernels": e.get("method", ""), "frame": e.get("method", ""), "freq": e.get("method", ""), "gibbs": "GibbsSampling",
-               "repro": e.get("method", "")}.get(e["ev"], e["ev"])
-        ctx.violation({"api": api, "clause": v["clause"], "features": {"has_latents": bool(t["inst"]["latents"]), "kind": t["inst"]["kind"]},
+               "repro": e.get("method", ""), "xrepro": e.get("method", ""), "partial": e.get("method", ""), "missing": e.get("method", ""), "sweep": "GibbsSampling"}.get(e["ev"], e["ev"])
+        feat = {"has_latents": bool(t["inst"]["latents"]), "kind": t["inst"]["kind"]}
+        node = e.get("node") or e.get("var")
+        if node and set(t.get("colliding", [])) & (set(t["inst"]["parents"].get(node, [])) if e["ev"] != "gibbs" else set(t["inst"]["nodes"])):
+            feat["int_state_names_collide_with_state_numbers"] = True       # ... of a parent of the sampled node (Gibbs: of any variable)
+        ctx.violation({"api": api, "clause": v["clause"], "features": feat,
                        "case": {"inst": t["inst"], "seed": t["seed"], "hashseed": t["hashseed"], "tid": tid, "n": t["n"]},
-                       "observed": {k: e[k] for k in e if k not in ("rows", "weights", "pairs", "counts")}, "expected": None})
+                       "observed": {k: e[k] for k in e if k not in ("rows", "weights", "pairs", "counts", "given")}, "expected": None})
     if seen != set(by):
         raise Machinery(f"Trace_C07: verdicts missing for {len(set(by) - seen)} traces")
     t = traces[0]
@@ -68,9 +89,16 @@ def validate(ctx, traces):
 
 def replay(ctx, rec):
     c = rec["case"]
-    res = run_workers(ctx, "c07", "record", [(c["hashseed"], {"insts": [c["inst"]], "seed": c["seed"], "tid0": c["tid"], "n": c["n"], "exact_seed": True})])[0]
+    pay = {"insts": [c["inst"]], "seed": c["seed"], "tid0": c["tid"], "n": c["n"], "exact_seed": True}
+    hss = [c["hashseed"]]
+    if rec.get("clause") == "repro.differs_across_hash_seeds":       # needs the partner process
+        hss = [rec["observed"].get("other_hashseed", 0), c["hashseed"]]
+    traces = []
+    for i, res in enumerate(run_workers(ctx, "c07", "record", [(h, dict(pay, tid0=c["tid"] + i)) for i, h in enumerate(hss)])):
+        traces += res["traces"]
+    cross_compare(traces)
     n0 = len(ctx.violations)
-    validate(ctx, res["traces"])
+    validate(ctx, traces)
     return ctx.violations[n0:][:1] or None
 
 
@@ -128,7 +156,9 @@ def record(payload):
         for k, inst in enumerate(payload["insts"]):
             seed = payload["seed"] if payload.get("exact_seed") else rng0.randrange(10 ** 9)
             rng = random.Random(seed)
-            conc = Conc(inst, rng, "str", "any")
+            # integer state names that collide with state NUMBERS ("perm") in one trace out of four only (known finding C07-int-names-vs-numbers)
+            conc = Conc(inst, rng, "str", "any" if rng.random() < 0.3 else "any_noperm")
+            colliding = sorted(v for v, kd in conc.kinds.items() if kd == "perm" and len(inst["states"][v]) > 1)
             model = build_bn(inst, conc, rng)
             n = payload["n"]
             events = []
@@ -184,14 +214,36 @@ def record(payload):
                 events.append({"ev": "frame", "method": method, "size": size, "include_latents": incl,
                                "columns": [conc.inv[c] for c in df.columns if c != "_weight" and c in conc.inv], "rows": rows_of(df), "evid": evid,
                                "weights": weights or [], "clamped": list(clamped)})
+            digests = {}
+
+            def digest(label, df):
+                import hashlib
+                cols = sorted((conc.inv[c], c) for c in df.columns if c in conc.inv)
+                body = []
+                for v, c in cols:
+                    vals = []
+                    for x in df[c].tolist():
+                        try:
+                            vals.append("NaN" if (isinstance(x, float) and x != x) else conc.sinv[v].get(x, "INVALID"))
+                        except TypeError:
+                            vals.append("INVALID")
+                    body.append((v, vals))
+                digests[label] = hashlib.sha1(json.dumps(body).encode()).hexdigest()
             s1 = rng.randrange(10 ** 6)
             calls.clear()
             signal.alarm(60)
+
+            def perturb():
+                """leave numpy's global generator in an unrelated state (as in another process): a seeded call must not depend on it"""
+                np.random.seed(rng.randrange(2 ** 31))
+                np.random.random(rng.randint(1, 7))
             try:
                 df = bms.forward_sample(size=n, include_latents=True, seed=s1, show_progress=False, n_jobs=1)
                 kernel_events("forward", df, topo)
                 frame_event("forward", df, n, True, {})
+                digest("forward", df)
                 calls.clear()
+                perturb()
                 df2 = bms.forward_sample(size=n, include_latents=True, seed=s1, show_progress=False, n_jobs=1)
                 events.append({"ev": "repro", "method": "forward", "same": bool(df.equals(df2))})
                 df3 = bms.forward_sample(size=17, include_latents=False, seed=s1 + 1, show_progress=False, n_jobs=1)
@@ -204,6 +256,8 @@ def record(payload):
                 calls.clear()
                 dfr = bms.rejection_sample(evidence=ev_list, size=40, include_latents=True, seed=s1 + 2, show_progress=False)
                 frame_event("rejection", dfr, 40, True, evid)
+                digest("rejection", dfr)
+                perturb()
                 dfr2 = bms.rejection_sample(evidence=ev_list, size=40, include_latents=True, seed=s1 + 2, show_progress=False)
                 events.append({"ev": "repro", "method": "rejection", "same": bool(dfr.equals(dfr2))})
                 dfr3 = bms.rejection_sample(evidence=ev_list, size=9, include_latents=False, seed=s1 + 3, show_progress=False)
@@ -212,6 +266,7 @@ def record(payload):
                 dfl = bms.likelihood_weighted_sample(evidence=ev_list, size=n // 2, include_latents=True, seed=s1 + 4, show_progress=False, n_jobs=1)
                 kernel_events("lw", dfl, [t for t in topo if conc.inv[t] not in evid])
                 frame_event("lw", dfl, n // 2, True, evid, [_rat(w) for w in dfl["_weight"]])
+                digest("lw", dfl)
                 calls.clear()
                 # simulate(): do-intervention (+ evidence taken from an interventional sample, + virtual evidence)
                 # (simulate() ends with DataFrame.astype("category"); pandas cannot hash columns mixing tuple and scalar labels)
@@ -237,8 +292,24 @@ def record(payload):
                                          include_latents=True, seed=s1 + 7, show_progress=False)
                     frame_event("simulate", ds3, 20, True, {})
                     ds4 = model.simulate(n_samples=20, include_latents=True, seed=s1 + 7, show_progress=False)
+                    perturb()
                     ds5 = model.simulate(n_samples=20, include_latents=True, seed=s1 + 7, show_progress=False)
                     events.append({"ev": "repro", "method": "simulate", "same": bool(ds4.equals(ds5))})
+                    digest("simulate", ds4)
+                    # missing values: the mask is part of the seeded result
+                    dm = model.simulate(n_samples=40, include_latents=False, seed=s1 + 9, show_progress=False, include_missing=True,
+                                        missing_prob=rng.choice([0.1, 0.3, 0.5]))
+                    mrows = []
+                    for _, r in dm.iterrows():
+                        row = {}
+                        for c in dm.columns:
+                            if c in conc.inv:
+                                x = r[c]
+                                x = x.item() if hasattr(x, "item") else x
+                                row[conc.inv[c]] = "NaN" if (isinstance(x, float) and x != x) else conc.sinv[conc.inv[c]].get(x, "INVALID")
+                        mrows.append(row)
+                    events.append({"ev": "missing", "method": "simulate", "size": 40, "rows": mrows})
+                    digest("simulate_missing", dm)
                     if snap_model(model) != snap0:
                         events.append({"ev": "raised", "method": "simulate", "exc": "model changed by simulate()"})
                 calls.clear()
@@ -252,11 +323,70 @@ def record(payload):
                         for tup, p in gs.transition_models[var].items():
                             events.append({"ev": "gibbs", "var": v, "others": {o: inst["states"][o][int(s)] for o, s in zip(others, tup)},
                                            "p": [_rat(x) for x in np.array(p, dtype=float)]})
+                    # the chain itself: every logged draw is replayed from the returned rows
+                    ng = 8
+                    calls.clear()
+                    gdf = gs.sample(size=ng, seed=s1 + 12, include_latents=True)
+                    gcalls = list(calls)
+                    calls.clear()
+                    grow = [{v: inst["states"][v][int(gdf[str(conc.vn[v])].iloc[i])] for v in order} for i in range(ng)]
+                    if len(gcalls) != (ng - 1) * len(order) or len(gdf) != ng:
+                        events.append({"ev": "raised", "method": "gibbs", "exc": f"{len(gcalls)} draws logged for {ng} rows of {len(order)} variables"})
+                    else:
+                        for i in range(ng - 1):
+                            state = dict(grow[i])
+                            for j, v in enumerate(order):
+                                call = gcalls[i * len(order) + j]
+                                events.append({"ev": "gibbs", "var": v, "others": {o: state[o] for o in order if o != v},
+                                               "p": [_rat(x) for x in np.array(call[2], dtype=float)]})
+                                state[v] = inst["states"][v][int(np.array(call[3]).ravel()[0])]
+                            events.append({"ev": "sweep", "method": "gibbs", "after": grow[i + 1], "state": state})
+                    perturb()
+                    gdf2 = GibbsSampling(model).sample(size=ng, seed=s1 + 12, include_latents=True)
+                    perturb()
+                    gdf3 = GibbsSampling(model).sample(size=ng, seed=s1 + 12, include_latents=True)
+                    events.append({"ev": "repro", "method": "gibbs", "same": bool(gdf2.equals(gdf3))})
+                    import hashlib
+                    digests["gibbs"] = hashlib.sha1(json.dumps([[v, [int(x) for x in gdf2[str(conc.vn[v])]]] for v in sorted(order)]).encode()).hexdigest()
+                    gdf4 = GibbsSampling(model).sample(size=3, seed=s1 + 13, include_latents=False)
+                    if set(gdf4.columns) != {str(conc.vn[v]) for v in order if v not in inst["latents"]}:
+                        events.append({"ev": "raised", "method": "gibbs", "exc": f"columns {sorted(gdf4.columns)} with include_latents=False"})
+                    calls.clear()
+                # partial_samples (values are state NUMBERS: asked on a model with range(card) state names, where numbers = names).
+                # The input frame carries a non-default index (as after shuffling / filtering a DataFrame).
+                if len(inst["nodes"]) >= 2:
+                    import pandas as pd
+                    conc = Conc(inst, rng, "str", "range")
+                    model_r = build_bn(inst, conc, rng)
+                    bms_r = BayesianModelSampling(model_r)
+                    topo_r = list(bms_r.topological_order)
+                    npart = 24
+                    pcols = rng.sample(inst["nodes"], rng.choice([1, 1, 2]) if len(inst["nodes"]) > 2 else 1)
+                    given = {v: [rng.choice(inst["states"][v]) for _ in range(npart)] for v in pcols}
+                    idx = {"shuffled": rng.sample(range(npart), npart), "offset": list(range(100, 100 + npart)),
+                           "strided": list(range(0, 2 * npart, 2)), "labels": [f"r{i}" for i in range(npart)],
+                           "default": list(range(npart))}[rng.choice(["shuffled", "shuffled", "offset", "strided", "labels", "default"])]
+                    pdf = pd.DataFrame({conc.vn[v]: [conc.sn[v][s] for s in given[v]] for v in pcols}, index=idx)
+                    pdf0 = pdf.copy(deep=True)
+                    calls.clear()
+                    dfp = bms_r.forward_sample(size=npart, include_latents=True, seed=s1 + 10, show_progress=False, n_jobs=1, partial_samples=pdf)
+                    kernel_events("forward", dfp, [t for t in topo_r if conc.inv[t] not in pcols])
+                    frame_event("forward", dfp, npart, True, {}, clamped=pcols)
+                    events.append({"ev": "partial", "method": "forward", "size": npart, "given": given, "rows": rows_of(dfp)})
+                    calls.clear()
+                    dsp = model_r.simulate(n_samples=npart, include_latents=True, seed=s1 + 11, show_progress=False, partial_samples=pdf)
+                    frame_event("simulate", dsp, npart, True, {}, clamped=pcols)
+                    events.append({"ev": "partial", "method": "simulate", "size": npart, "given": given, "rows": rows_of(dsp)})
+                    if not pdf.equals(pdf0):
+                        events.append({"ev": "raised", "method": "forward", "exc": "partial_samples argument changed by the call"})
+                    digest("partial", dfp)
+                    calls.clear()
             except Exception as ex:  # noqa
                 import traceback
                 events.append({"ev": "raised", "method": "sampler", "exc": repr(ex)[:200], "tb": traceback.format_exc()[-700:]})
             signal.alarm(0)
-            out.append({"tid": payload["tid0"] + k, "seed": seed, "hashseed": hs, "n": n, "inst": inst, "events": events})
+            out.append({"tid": payload["tid0"] + k, "seed": seed, "hashseed": hs, "n": n, "inst": inst, "events": events, "digests": digests,
+                        "colliding": colliding})
     finally:
         S.sample_discrete_maps, S.sample_discrete = orig_maps, orig_disc
     return {"traces": out}
